@@ -284,5 +284,18 @@ Definition final (t : table) : outcome :=
   | Some h => match pareto_pass (h, snd t) with Some (h', rows') => Table h' rows' | None => Raised end
   end.
 
+(* A Search created with an evaluator that already served another search (Search.__init__ resets _columns_dumped and
+   _start_dumping of the evaluator it is given; num_objective survives): the run starts with num_objective = n0 *)
+Definition dstart (n0 : option nat) : dstate := mkD None false n0 [].
+Definition run_from (infer : option nat -> list job -> option nat) (n0 : option nat) (evs : list event) : dstate * table :=
+  fold_left (step infer) evs (dstart n0, tinit).
+Definition search_fixed_from (n0 : option nat) (evs : list event) : outcome := final (snd (run_from infer_fixed n0 evs)).
+(* several searches, one after the other, on ONE evaluator *)
+Fixpoint searches_from (infer : option nat -> list job -> option nat) (n0 : option nat) (l : list (list event)) : list outcome :=
+  match l with
+  | [] => []
+  | evs :: t => let r := run_from infer n0 evs in final (snd r) :: searches_from infer (nobj (fst r)) t
+  end.
+
 Definition search_fixed (evs : list event) : outcome := final (snd (run infer_fixed evs)).
 Definition search_pinned (evs : list event) : outcome := final (snd (run infer_pinned evs)).
